@@ -1,27 +1,51 @@
 #!/usr/bin/env python3
-"""Function translator: pure integer functions of the Rust sources  ->  lean/NomtModel/Generated/Functions.lean
+"""Function translator: pure integer functions and methods of the Rust sources  ->  lean/NomtModel/Generated/Functions.lean
 
 A (small) Rust-subset -> Lean translator.  It reads the CURRENT working tree of the Rust project
 (default /repo, override env NOMT_REPO or argv[1]), finds every function listed in TARGETS, parses its
 body with a recursive-descent parser for the subset below and emits one Lean definition per function
-into namespace `Nomt.GenFn`.  `lean/NomtModel/Store/GenFnCheck.lean` then proves, for ALL arguments in
+into namespace `Nomt.GenFn`.  `lean/NomtModel/Store/GenFnCheck*.lean` then prove, for ALL arguments in
 the function's domain, that the generated definition equals the hand-written mirror the property theorems
 are about — so a change of the Rust function that alters its meaning breaks a kernel-checked obligation
 on the next run, and a harmless rewrite (reordered arithmetic, a renamed local) re-proves by `omega`.
 
-Subset: `fn name(a: T, …) -> T { … }` over usize / u8 / u16 / u32 / u64 / bool;
-  statements  `let [mut] x [: T] = e;`  `x = e;`  `x op= e;`  `if c { … } [else if …] [else { … }]`
-              `return e;`  `assert!(c …);` `debug_assert!(c …);`  trailing expression
+TARGETS: (lean name, rust fn name, file[, options]).  Options: `impl` (the method `fn name(&self …)` of `impl X` / `impl Trait for X`),
+  `types_from` (further files whose struct / enum definitions may be read), `const_from` (further files for constants),
+  `hints` ({local: type} for a `let` whose type Rust infers from a LATER use; a wrong hint is a type error of the translation),
+  `calls` ({"alias::f": lean name} for a call through a module alias) with `uses` (regexes the file's imports must still match),
+  `opaque` (type aliases carried around but never computed with, a `Nat`).
+
+Subset and the SEMANTICS each construct is given:
+  values      every integer is a `Nat` below 2^width of its Rust type (usize = u64); `bool` is `Bool`; `Option<T>` is `Option`; tuples are
+              products; `Vec<T>` / `&[T]` are `List`; a single-field tuple struct over an integer (`PageNumber(u32)`, `Self(x)`) is that
+              integer; an enum with integer payloads becomes a generated `inductive` with the same variant names.
+  result      `Option R`: `none` = the Rust function PANICS (debug build: overflow of + - *, division / remainder by zero, shift by >= width,
+              failed `assert!` / `assert_eq!` / `assert_ne!`, `panic!` / `unreachable!`, index out of bounds, `unwrap` of `None`).
+              A function with a `loop` / `while` takes `fuel` first and returns `Option (Option R)`: outer `none` = the fuel ran out,
+              `some none` = panic (the check file proves equality with the mirror for EVERY fuel, and that enough fuel is never used up).
+  self        the leaf fields of `self` (and of struct-typed parameters) the body touches — directly or through a translated method it
+              calls — are parameters, in struct declaration order, before the explicit parameters (`self.depth` -> `depth`,
+              `meta_map.bitvec` -> `meta_map_bitvec`, a tuple struct's `self.0` -> `self0`, a `[u64; 2]` field -> `f0 f1`); field types are
+              read from the struct definitions.  A `&mut self` method returns (value, new values of the fields it assigns…).
+  statements  `let [mut] x [: T] = e;`  `let Some(x) = e else { diverges };`  `x = e;`  `x op= e;`  `self.f = e;`  `self.f op= e;`
+              `self.arr[i] op= e` (bounds-checked, every element rebound by `if i = k`), `self.vec[i] = e` (`List.set`, bounds-checked),
+              `if` / `else if` / `else`, `match` on integers (literals, `_`, binding, `if` guards: an if-chain over the bound scrutinee) and on
+              `Option` (`None` / `Some(pattern)`, tuple patterns), `return [e];`, the assert / panic macros, calls of unit methods,
+              `loop { }` / `while c { }` (auxiliary definition, recursion on explicit fuel, all variables in scope are its parameters,
+              `continue` = recursive call, `break` = the statements after the loop), `for i in a..b` / `(a..b).rev()` (auxiliary definition,
+              structural recursion on the number of remaining iterations — no fuel), trailing expression.  Nested loops are NOT translated.
   expressions integer literals (dec / hex / bin / octal, `_`, type suffix), `true` / `false`, locals, parameters,
               UPPER_CASE constants (resolved by tools/gen_constants.py's evaluator from their `const` items),
-              `u64::MAX`-style constants, + - * / % << >> & | ^ ! (bitwise / logical), comparisons, && ||,
-              `e as T`, parentheses, `if` expressions, calls of other TARGET functions, `core::cmp::min/max`,
-              methods saturating_sub, saturating_add, wrapping_add/sub/mul, min, max, div_ceil, next_multiple_of, pow,
-              count_ones, is_power_of_two, and the idiom `E.checked_shl(S).map(|m| BODY).unwrap_or(D)`.
-Semantics: every value is a `Nat` below 2^width of its Rust type; a definition returns `Option`, `none` = the
-  Rust function panics (overflow of + - * in a checked build, division by zero, over-long shift, failed assert).
-  Unsupported syntax is an ERROR naming the function and the token (exit code 1): a function that leaves the
-  subset must be noticed, never silently skipped.
+              `u64::MAX`-style constants, + - * / % << >> & | ^ ! (bitwise / logical), comparisons, && || (short-circuit),
+              `e as T` (widening: unchanged; narrowing: `% 2^width`; bool: 0 / 1), parentheses, `&` / `*` (the value itself), `if` and
+              `match` expressions, field access, tuple `.0`, indexing, `Some(e)` / `None`, tuples, `Enum::Variant(e)`,
+              calls of other TARGET functions / associated functions / methods of objects, `core::cmp::min/max`,
+              methods saturating_sub, saturating_add, wrapping_add/sub/mul (`% 2^width`), checked_add/sub/mul (an `Option`), abs_diff,
+              min, max, div_ceil, next_multiple_of, pow, count_ones (`popcount`), trailing_zeros (`ctz`), leading_zeros (`clz`),
+              is_power_of_two, `unwrap` / `expect` (`None` = panic), `unwrap_or`, `is_none` / `is_some`, `len` / `is_empty` of a slice,
+              `clone` / `copied`, and the idiom `E.checked_shl(S).map(|m| BODY).unwrap_or(D)`.
+Unsupported syntax is an ERROR naming the function and the token (exit code 1): a function that leaves the subset must be noticed,
+never silently skipped or guessed (struct literals, closures, iterators, `?`, range indexing, nested loops, untyped shifts, strings …).
 The output is deterministic; the file is only rewritten when its content changes.
 """
 import os
@@ -52,6 +76,55 @@ TARGETS = [
     ("parent_node_index", "parent_node_index", "core/src/trie_pos.rs"),
     ("first_chunk_mask", "first_chunk_mask", "nomt/src/beatree/ops/bit_ops.rs"),
     ("last_chunk_mask", "last_chunk_mask", "nomt/src/beatree/ops/bit_ops.rs"),
+    # ---- methods: the fields of `self` they touch are parameters (struct declaration order), then the explicit parameters
+    ("tp_is_root", "is_root", "core/src/trie_pos.rs", {"impl": "TriePosition"}),
+    ("tp_depth_in_page", "depth_in_page", "core/src/trie_pos.rs", {"impl": "TriePosition"}),
+    ("tp_is_first_layer_in_page", "is_first_layer_in_page", "core/src/trie_pos.rs", {"impl": "TriePosition"}),
+    ("tp_child_node_indices", "child_node_indices", "core/src/trie_pos.rs", {"impl": "TriePosition"}),
+    ("tp_sibling_index", "sibling_index", "core/src/trie_pos.rs", {"impl": "TriePosition"}),
+    ("cni_in_next_page", "in_next_page", "core/src/trie_pos.rs", {"impl": "ChildNodeIndices"}),
+    ("cni_left", "left", "core/src/trie_pos.rs", {"impl": "ChildNodeIndices"}),
+    ("cni_right", "right", "core/src/trie_pos.rs", {"impl": "ChildNodeIndices"}),
+    ("child_page_index_new", "new", "core/src/page_id.rs", {"impl": "ChildPageIndex"}),
+    ("tp_child_page_index", "child_page_index", "core/src/trie_pos.rs", {"impl": "TriePosition", "types_from": ["core/src/page_id.rs"]}),
+    ("tp_sibling_child_page_index", "sibling_child_page_index", "core/src/trie_pos.rs", {"impl": "TriePosition", "types_from": ["core/src/page_id.rs"]}),
+    ("ht_data_page_index", "data_page_index", "nomt/src/bitbox/ht_file.rs", {"impl": "HTOffsets"}),
+    ("ht_meta_bytes_index", "meta_bytes_index", "nomt/src/bitbox/ht_file.rs", {"impl": "HTOffsets"}),
+    ("meta_len", "len", "nomt/src/bitbox/meta_map.rs", {"impl": "MetaMap"}),
+    ("meta_page_index", "page_index", "nomt/src/bitbox/meta_map.rs", {"impl": "MetaMap"}),
+    ("meta_hint_empty", "hint_empty", "nomt/src/bitbox/meta_map.rs", {"impl": "MetaMap"}),
+    ("meta_hint_tombstone", "hint_tombstone", "nomt/src/bitbox/meta_map.rs", {"impl": "MetaMap"}),
+    ("meta_hint_not_match", "hint_not_match", "nomt/src/bitbox/meta_map.rs", {"impl": "MetaMap"}),
+    ("meta_set_full", "set_full", "nomt/src/bitbox/meta_map.rs", {"impl": "MetaMap"}),
+    ("meta_set_tombstone", "set_tombstone", "nomt/src/bitbox/meta_map.rs", {"impl": "MetaMap"}),
+    ("pd_set_changed", "set_changed", "nomt/src/page_diff.rs", {"impl": "PageDiff", "hints": {"mask": "u64"}, "const_from": ["nomt/src/page_cache.rs"]}),
+    ("pd_changed", "changed", "nomt/src/page_diff.rs", {"impl": "PageDiff", "hints": {"mask": "u64"}}),
+    ("pd_set_cleared", "set_cleared", "nomt/src/page_diff.rs", {"impl": "PageDiff"}),
+    ("pd_cleared", "cleared", "nomt/src/page_diff.rs", {"impl": "PageDiff"}),
+    ("pd_count", "count", "nomt/src/page_diff.rs", {"impl": "PageDiff"}),
+    ("pd_assert_not_cleared", "assert_not_cleared", "nomt/src/page_diff.rs", {"impl": "PageDiff"}),
+    ("fast_iter_ones_next", "next", "nomt/src/page_diff.rs", {"impl": "FastIterOnes"}),
+    ("leaf_gauge_ingest", "ingest", "nomt/src/beatree/ops/update/leaf_updater.rs", {"impl": "LeafGauge"}),
+    ("leaf_gauge_body_size_after", "body_size_after", "nomt/src/beatree/ops/update/leaf_updater.rs",
+     {"impl": "LeafGauge", "calls": {"leaf_node::body_size": "leaf_body_size"}, "uses": [r"leaf::node::\{self as leaf_node\b"]}),
+    ("leaf_gauge_body_size", "body_size", "nomt/src/beatree/ops/update/leaf_updater.rs",
+     {"impl": "LeafGauge", "calls": {"leaf_node::body_size": "leaf_body_size"}, "uses": [r"leaf::node::\{self as leaf_node\b"]}),
+    ("uncompressed_separator_range_size", "uncompressed_separator_range_size", "nomt/src/beatree/branch/node.rs"),
+    ("compressed_separator_range_size", "compressed_separator_range_size", "nomt/src/beatree/branch/node.rs"),
+    ("branch_gauge_stop_prefix_compression", "stop_prefix_compression", "nomt/src/beatree/ops/update/branch_updater.rs", {"impl": "BranchGauge", "opaque": ["Key"]}),
+    ("branch_gauge_prefix_compressed_items", "prefix_compressed_items", "nomt/src/beatree/ops/update/branch_updater.rs", {"impl": "BranchGauge", "opaque": ["Key"]}),
+    ("branch_gauge_total_separator_lengths", "total_separator_lengths", "nomt/src/beatree/ops/update/branch_updater.rs",
+     {"impl": "BranchGauge", "opaque": ["Key"], "calls": {"node::compressed_separator_range_size": "compressed_separator_range_size"},
+      "uses": [r"branch::\{self as branch_node, node\b"]}),
+    ("branch_gauge_body_size", "body_size", "nomt/src/beatree/ops/update/branch_updater.rs",
+     {"impl": "BranchGauge", "opaque": ["Key"], "calls": {"branch_node::body_size": "branch_body_size"},
+      "uses": [r"branch::\{self as branch_node, node\b"]}),
+    ("record_id_next", "next", "nomt/src/seglog/mod.rs", {"impl": "RecordId"}),
+    ("record_id_prev", "prev", "nomt/src/seglog/mod.rs", {"impl": "RecordId"}),
+    ("record_id_is_nil", "is_nil", "nomt/src/seglog/mod.rs", {"impl": "RecordId"}),
+    ("page_number_is_nil", "is_nil", "nomt/src/beatree/allocator/mod.rs", {"impl": "PageNumber"}),
+    ("get_nth_pop", "get_nth_pop", "nomt/src/beatree/allocator/free_list.rs", {"impl": "CleanFreeList", "types_from": ["nomt/src/beatree/allocator/mod.rs"]}),
+    ("probe_next", "next", "nomt/src/bitbox/mod.rs", {"impl": "ProbeSequence", "types_from": ["nomt/src/bitbox/meta_map.rs"]}),
 ]
 
 WIDTH = {"usize": 64, "u64": 64, "u32": 32, "u16": 16, "u8": 8, "bool": 0}
@@ -71,7 +144,9 @@ TOKEN_RE = re.compile(r"""
     (?P<ws>\s+|//[^\n]*|/\*.*?\*/)
   | (?P<int>0x[0-9a-fA-F_]+|0b[01_]+|0o[0-7_]+|[0-9][0-9_]*)(?P<suf>usize|u8|u16|u32|u64)?
   | (?P<id>[A-Za-z_][A-Za-z0-9_]*)
-  | (?P<op><<=|>>=|\+=|-=|\*=|/=|%=|&=|\|=|\^=|<<|>>|<=|>=|==|!=|&&|\|\||->|::|[-+*/%&|^!<>=(){}\[\],;:.])
+  | (?P<label>'[a-z_][a-z0-9_]*(?!'))
+  | (?P<str>"(?:[^"\\]|\\.)*")
+  | (?P<op><<=|>>=|\.\.=|\+=|-=|\*=|/=|%=|&=|\|=|\^=|<<|>>|<=|>=|==|!=|&&|\|\||->|=>|::|\.\.|[-+*/%&|^!<>=(){}\[\],;:.\#?])
 """, re.X | re.S)
 
 
@@ -90,6 +165,10 @@ def lex(src, what):
             toks.append(("int", v, m.group("suf")))
         elif m.group("id"):
             toks.append(("id", m.group("id"), None))
+        elif m.group("label"):
+            toks.append(("label", m.group("label"), None))
+        elif m.group("str"):
+            toks.append(("str", m.group("str"), None))
         else:
             toks.append(("op", m.group("op"), None))
     toks.append(("eof", None, None))
@@ -98,12 +177,17 @@ def lex(src, what):
 
 # ------------------------------------------------------------------ parser (AST = tuples)
 
+ASSIGN_OPS = ("=", "+=", "-=", "*=", "/=", "%=", "&=", "|=", "^=", "<<=", ">>=")
+
+
 class Parser:
-    def __init__(self, toks, what):
-        self.t, self.i, self.what = toks, 0, what
+    """types:  'usize' … 'bool' | 'unit' | ('opt', T) | ('tup', [T…]) | ('list', T) | ('arr', T, n) | ('named', Name)"""
+
+    def __init__(self, toks, what, self_ty=None):
+        self.t, self.i, self.what, self.self_ty = toks, 0, what, self_ty
 
     def peek(self, k=0):
-        return self.t[self.i + k]
+        return self.t[min(self.i + k, len(self.t) - 1)]
 
     def next(self):
         tok = self.t[self.i]
@@ -120,37 +204,157 @@ class Parser:
             raise TrError(f"{self.what}: expected `{val or kind}`, found `{v}` — outside the translated subset")
         return v
 
-    def ty(self):
-        name = self.expect("id")
-        if name not in WIDTH:
-            raise TrError(f"{self.what}: type `{name}` is outside the translated subset")
-        return name
+    def close_angle(self):
+        k, v, s = self.peek()
+        if k == "op" and v == ">>":
+            self.t[self.i] = ("op", ">", None)
+            return
+        self.expect("op", ">")
 
-    # fn name ( params ) -> ty block
+    def ty(self):
+        if self.at("op", "&"):
+            self.next()
+            if self.at("label"):
+                self.next()
+            if self.at("id", "mut"):
+                self.next()
+            return self.ty()
+        if self.at("op", "("):
+            self.next()
+            ts = []
+            while not self.at("op", ")"):
+                ts.append(self.ty())
+                if self.at("op", ","):
+                    self.next()
+            self.expect("op", ")")
+            if not ts:
+                return "unit"
+            return ts[0] if len(ts) == 1 else ("tup", ts)
+        if self.at("op", "["):
+            self.next()
+            inner = self.ty()
+            if self.at("op", ";"):
+                self.next()
+                k, v, _ = self.next()
+                if k != "int":
+                    raise TrError(f"{self.what}: array length `{v}` is not a literal — outside the translated subset")
+                self.expect("op", "]")
+                return ("arr", inner, v)
+            self.expect("op", "]")
+            return ("list", inner)
+        name = self.expect("id")
+        while self.at("op", "::"):       # path to a type: keep the last component
+            self.next()
+            name = self.expect("id")
+        if name in WIDTH:
+            return name
+        if name in ("Option", "Vec"):
+            self.expect("op", "<")
+            inner = self.ty()
+            self.close_angle()
+            return ("opt", inner) if name == "Option" else ("list", inner)
+        if name == "Self":
+            if self.self_ty is None:
+                raise TrError(f"{self.what}: `Self` outside an impl")
+            return ("named", self.self_ty)
+        if self.at("op", "<"):            # lifetime / generic arguments of a named type: skipped
+            depth = 0
+            while True:
+                k, v, _ = self.next()
+                if k == "eof":
+                    raise TrError(f"{self.what}: unterminated generic arguments")
+                if k == "op" and v == "<":
+                    depth += 1
+                if k == "op" and v == ">":
+                    depth -= 1
+                if k == "op" and v == ">>":
+                    depth -= 2
+                if depth <= 0:
+                    break
+        if not name[0].isupper():
+            raise TrError(f"{self.what}: type `{name}` is outside the translated subset")
+        return ("named", name)
+
+    # fn name ( params ) [-> ty] block
     def function(self):
         self.expect("id", "fn")
         name = self.expect("id")
         self.expect("op", "(")
-        params = []
+        params, selfmode = [], None
         while not self.at("op", ")"):
-            p = self.expect("id")
-            self.expect("op", ":")
-            params.append((p, self.ty()))
+            if self.at("op", "&"):
+                self.next()
+                if self.at("label"):
+                    self.next()
+                selfmode = "ref"
+                if self.at("id", "mut"):
+                    self.next()
+                    selfmode = "mut"
+                self.expect("id", "self")
+            elif self.at("id", "self"):
+                self.next()
+                selfmode = "ref"
+            elif self.at("id", "mut") and self.peek(1)[1] == "self":
+                self.next()
+                self.next()
+                selfmode = "mut"
+            else:
+                if self.at("id", "mut"):
+                    self.next()
+                p = self.expect("id")
+                self.expect("op", ":")
+                params.append((p, self.ty()))
             if self.at("op", ","):
                 self.next()
         self.expect("op", ")")
-        self.expect("op", "->")
-        ret = self.ty()
+        ret = "unit"
+        if self.at("op", "->"):
+            self.next()
+            ret = self.ty()
         body = self.block()
-        return name, params, ret, body
+        return name, params, ret, body, selfmode
+
+    def skip_macro_args(self):
+        """after `name!(` and possibly some parsed arguments: skip to the matching `)`"""
+        depth = 1
+        while depth:
+            k, v, _ = self.next()
+            if k == "eof":
+                raise TrError(f"{self.what}: unterminated macro call")
+            if k == "op" and v in ("(", "[", "{"):
+                depth += 1
+            if k == "op" and v in (")", "]", "}"):
+                depth -= 1
+        if self.at("op", ";"):
+            self.next()
 
     def block(self):
         """-> list of statements; a trailing expression becomes ('return', e)"""
         self.expect("op", "{")
         stmts = []
         while not self.at("op", "}"):
+            label = None
+            if self.at("label") and self.peek(1)[1] == ":":
+                label = self.next()[1]
+                self.next()
+                if not (self.at("id", "loop") or self.at("id", "while") or self.at("id", "for")):
+                    raise TrError(f"{self.what}: label `{label}` not on a loop")
             if self.at("id", "let"):
                 self.next()
+                if self.at("id", "Some") and self.peek(1)[1] == "(":
+                    self.next()
+                    self.next()
+                    if self.at("id", "mut"):
+                        self.next()
+                    x = self.expect("id")
+                    self.expect("op", ")")
+                    self.expect("op", "=")
+                    e = self.expr()
+                    self.expect("id", "else")
+                    els = self.block()
+                    self.expect("op", ";")
+                    stmts.append(("letelse", x, e, els))
+                    continue
                 if self.at("id", "mut"):
                     self.next()
                 x = self.expect("id")
@@ -164,46 +368,94 @@ class Parser:
                 stmts.append(("let", x, ty, e))
             elif self.at("id", "return"):
                 self.next()
+                if self.at("op", ";"):
+                    self.next()
+                    stmts.append(("return", None))
+                    continue
                 e = self.expr()
                 if self.at("op", ";"):
                     self.next()
                 stmts.append(("return", e))
-            elif self.at("id", "assert") or self.at("id", "debug_assert"):
-                self.next()
+            elif self.peek()[0] == "id" and self.peek()[1] in ("assert", "debug_assert", "assert_eq", "assert_ne", "debug_assert_eq",
+                                                              "debug_assert_ne") and self.peek(1)[1] == "!":
+                m = self.next()[1]
                 self.expect("op", "!")
                 self.expect("op", "(")
                 c = self.expr()
-                depth = 1
-                while depth:  # skip a message
-                    k, v, _ = self.next()
-                    if k == "eof":
-                        raise TrError(f"{self.what}: unterminated assert!")
-                    if k == "op" and v == "(":
-                        depth += 1
-                    if k == "op" and v == ")":
-                        depth -= 1
-                if self.at("op", ";"):
-                    self.next()
+                if m.endswith("_eq") or m.endswith("_ne"):
+                    self.expect("op", ",")
+                    d = self.expr()
+                    c = ("bin", "==" if m.endswith("_eq") else "!=", c, d)
+                self.skip_macro_args()
                 stmts.append(("assert", c))
+            elif self.peek()[0] == "id" and self.peek()[1] in ("panic", "unreachable") and self.peek(1)[1] == "!":
+                self.next()
+                self.next()
+                self.expect("op", "(")
+                self.skip_macro_args()
+                stmts.append(("panic",))
             elif self.at("id", "if"):
                 node = self.if_()
                 if self.at("op", "}") and self._is_value_if(node):
                     stmts.append(("return", node))
                 else:
                     stmts.append(("ifstmt", node))
-            elif self.peek()[0] == "id" and self.peek(1)[0] == "op" and self.peek(1)[1] in ("=", "+=", "-=", "*=", "/=", "%=", "&=", "|=", "^=", "<<=", ">>="):
+            elif self.at("id", "match"):
+                node = self.match_()
+                if self.at("op", ";"):
+                    self.next()
+                stmts.append(("matchstmt", node, self.at("op", "}")))
+            elif self.at("id", "loop"):
+                self.next()
+                stmts.append(("loop", label, self.block()))
+            elif self.at("id", "while"):
+                self.next()
+                c = self.expr()
+                body = self.block()
+                stmts.append(("loop", label, [("ifstmt", ("if", ("not", c), [("break", None)], None))] + body))
+            elif self.at("id", "for"):
+                self.next()
                 x = self.expect("id")
-                op = self.next()[1]
-                e = self.expr()
+                self.expect("id", "in")
+                rev = False
+                if self.at("op", "("):
+                    self.next()
+                    lo = self.expr()
+                    self.expect("op", "..")
+                    hi = self.expr()
+                    self.expect("op", ")")
+                    self.expect("op", ".")
+                    self.expect("id", "rev")
+                    self.expect("op", "(")
+                    self.expect("op", ")")
+                    rev = True
+                else:
+                    lo = self.expr()
+                    self.expect("op", "..")
+                    hi = self.expr()
+                stmts.append(("for", label, x, lo, hi, rev, self.block()))
+            elif self.at("id", "break") or self.at("id", "continue"):
+                kw = self.next()[1]
+                lab = self.next()[1] if self.at("label") else None
                 self.expect("op", ";")
-                if op != "=":
-                    e = ("bin", op[:-1], ("var", x), e)
-                stmts.append(("assign", x, e))
+                stmts.append((kw, lab))
             else:
                 e = self.expr()
-                if self.at("op", ";"):
-                    raise TrError(f"{self.what}: expression statement is outside the translated subset")
-                stmts.append(("return", e))
+                if self.peek()[0] == "op" and self.peek()[1] in ASSIGN_OPS:
+                    op = self.next()[1]
+                    r = self.expr()
+                    self.expect("op", ";")
+                    if op != "=":
+                        r = ("bin", op[:-1], e, r)
+                    if e[0] == "var":
+                        stmts.append(("assign", e[1], r))
+                    else:
+                        stmts.append(("assign_place", e, r))
+                elif self.at("op", ";"):
+                    self.next()
+                    stmts.append(("exprstmt", e))
+                else:
+                    stmts.append(("return", e))
         self.expect("op", "}")
         return stmts
 
@@ -211,7 +463,7 @@ class Parser:
     def _is_value_if(node):
         _, _, a, b = node
         def val(blk):
-            return bool(blk) and blk[-1][0] == "return"
+            return bool(blk) and blk[-1][0] == "return" and blk[-1][1] is not None
         return b is not None and val(a) and val(b)
 
     def if_(self):
@@ -227,6 +479,74 @@ class Parser:
             else:
                 b = self.block()
         return ("if", c, a, b)
+
+    def pattern(self):
+        """-> ('plit', v) | ('pwild',) | ('pbind', x) | ('pnone',) | ('psome', subpattern) | ('ptup', [subpatterns])"""
+        k, v, s = self.next()
+        if k == "int":
+            return ("plit", v)
+        if k == "op" and v == "(":
+            ps = []
+            while not self.at("op", ")"):
+                ps.append(self.pattern())
+                if self.at("op", ","):
+                    self.next()
+            self.expect("op", ")")
+            return ("ptup", ps)
+        if k == "id" and v == "_":
+            return ("pwild",)
+        if k == "id" and v == "None":
+            return ("pnone",)
+        if k == "id" and v == "Some":
+            self.expect("op", "(")
+            if self.at("id", "ref"):
+                self.next()
+            if self.at("id", "mut"):
+                self.next()
+            p = self.pattern()
+            self.expect("op", ")")
+            return ("psome", p)
+        if k == "id" and v in ("ref", "mut"):
+            return self.pattern()
+        if k == "id" and v[0].islower():
+            return ("pbind", v)
+        raise TrError(f"{self.what}: pattern `{v}` is outside the translated subset")
+
+    def match_(self):
+        self.expect("id", "match")
+        scrut = self.expr()
+        self.expect("op", "{")
+        arms = []
+        while not self.at("op", "}"):
+            pat = self.pattern()
+            guard = None
+            if self.at("id", "if"):
+                self.next()
+                guard = self.expr()
+            self.expect("op", "=>")
+            if self.at("op", "{"):
+                body = self.block()
+            else:
+                kw = self.peek()[1] if self.peek()[0] == "id" else None
+                if kw == "return":
+                    self.next()
+                    body = [("return", None if self.at("op", ",") else self.expr())]
+                elif kw in ("continue", "break"):
+                    self.next()
+                    body = [(kw, self.next()[1] if self.at("label") else None)]
+                elif kw in ("panic", "unreachable") and self.peek(1)[1] == "!":
+                    self.next()
+                    self.next()
+                    self.expect("op", "(")
+                    self.skip_macro_args()
+                    body = [("panic",)]
+                else:
+                    body = [("return", self.expr())]
+            if self.at("op", ","):
+                self.next()
+            arms.append((pat, guard, body))
+        self.expect("op", "}")
+        return ("match", scrut, arms)
 
     PREC = [["||"], ["&&"], ["==", "!=", "<", "<=", ">", ">="], ["|"], ["^"], ["&"], ["<<", ">>"], ["+", "-"], ["*", "/", "%"]]
 
@@ -253,56 +573,107 @@ class Parser:
             return ("not", self.unary())
         if self.at("op", "-"):
             raise TrError(f"{self.what}: unary minus is outside the translated subset")
+        if self.at("op", "&") or self.at("op", "*"):      # references and dereferences are the value itself
+            self.next()
+            if self.at("id", "mut"):
+                self.next()
+            return self.unary()
+        if self.at("op", "&&"):
+            self.next()
+            return self.unary()
         return self.postfix()
 
     def postfix(self):
         e = self.atom()
-        while self.at("op", "."):
-            self.next()
-            m = self.expect("id")
-            self.expect("op", "(")
-            args = []
-            while not self.at("op", ")"):
-                if self.at("op", "|"):          # closure |m| body
-                    self.next()
-                    v = self.expect("id")
-                    self.expect("op", "|")
-                    args.append(("closure", v, self.expr()))
-                else:
-                    args.append(self.expr())
-                if self.at("op", ","):
-                    self.next()
-            self.expect("op", ")")
-            e = ("method", m, e, args)
-        return e
+        while True:
+            if self.at("op", "."):
+                self.next()
+                k, v, _ = self.next()
+                if k == "int":
+                    e = ("field", e, str(v))
+                    continue
+                if k != "id":
+                    raise TrError(f"{self.what}: unexpected `{v}` after `.`")
+                if not self.at("op", "("):
+                    e = ("field", e, v)
+                    continue
+                self.next()
+                args = []
+                while not self.at("op", ")"):
+                    if self.at("op", "|"):          # closure |m| body
+                        self.next()
+                        cv = self.expect("id")
+                        self.expect("op", "|")
+                        args.append(("closure", cv, self.expr()))
+                    else:
+                        args.append(self.expr())
+                    if self.at("op", ","):
+                        self.next()
+                self.expect("op", ")")
+                e = ("method", v, e, args)
+            elif self.at("op", "["):
+                self.next()
+                ix = self.expr()
+                if self.at("op", ".."):
+                    raise TrError(f"{self.what}: range indexing is outside the translated subset")
+                self.expect("op", "]")
+                e = ("index", e, ix)
+            elif self.at("op", "?"):
+                raise TrError(f"{self.what}: `?` is outside the translated subset")
+            else:
+                return e
+
+    def args(self):
+        self.expect("op", "(")
+        out = []
+        while not self.at("op", ")"):
+            out.append(self.expr())
+            if self.at("op", ","):
+                self.next()
+        self.expect("op", ")")
+        return out
 
     def atom(self):
         k, v, s = self.next()
         if k == "int":
             return ("lit", v, s)
         if k == "op" and v == "(":
-            e = self.expr()
+            es = []
+            trailing = False
+            while not self.at("op", ")"):
+                es.append(self.expr())
+                trailing = False
+                if self.at("op", ","):
+                    self.next()
+                    trailing = True
             self.expect("op", ")")
-            return ("paren", e)
+            if len(es) == 1 and not trailing:
+                return ("paren", es[0])
+            return ("tuple", es)
         if k == "id" and v == "if":
             self.i -= 1
             return self.if_()
+        if k == "id" and v == "match":
+            self.i -= 1
+            return self.match_()
         if k == "id" and v in ("true", "false"):
             return ("bool", v == "true")
+        if k == "id" and v == "None":
+            return ("none",)
+        if k == "id" and v == "Some" and self.at("op", "("):
+            a = self.args()
+            if len(a) != 1:
+                raise TrError(f"{self.what}: `Some` with {len(a)} arguments")
+            return ("some", a[0])
         if k == "id":
             path = [v]
             while self.at("op", "::"):
                 self.next()
                 path.append(self.expect("id"))
+            if self.at("op", "!"):
+                raise TrError(f"{self.what}: macro `{v}!` in expression position is outside the translated subset")
             if self.at("op", "("):
-                self.next()
-                args = []
-                while not self.at("op", ")"):
-                    args.append(self.expr())
-                    if self.at("op", ","):
-                        self.next()
-                self.expect("op", ")")
-                return ("call", path, args)
+                return ("call", path, self.args())
             if len(path) == 2 and path[0] in WIDTH and path[1] in ("MAX", "MIN", "BITS"):
                 w = WIDTH[path[0]]
                 return ("lit", {"MAX": 2 ** w - 1, "MIN": 0, "BITS": w}[path[1]], path[0] if path[1] != "BITS" else "u32")
@@ -310,9 +681,175 @@ class Parser:
             if name.isupper() or (name.upper() == name and "_" in name):
                 return ("const", name)
             if len(path) > 1:
+                if path[-1][0].isupper():
+                    return ("variant", path, [])
                 raise TrError(f"{self.what}: path `{'::'.join(path)}` is outside the translated subset")
+            if self.at("op", "{") and name[0].isupper():
+                raise TrError(f"{self.what}: struct literal `{name} {{ … }}` is outside the translated subset")
             return ("var", name)
         raise TrError(f"{self.what}: unexpected token `{v}` — outside the translated subset")
+
+
+# ------------------------------------------------------------------ types of the Rust items (struct / enum definitions)
+
+class TypeCtx:
+    """struct and enum definitions of the files a target may look into (its own file first, then `types_from`)"""
+
+    def __init__(self, rels, what, opaque=()):
+        self.what = what
+        self.opaque = tuple(opaque)
+        self.structs, self.enums = {}, {}
+        for rel in rels:
+            text = GC.read(rel)
+            if text is None:
+                raise TrError(f"{what}: file {rel} not found in {REPO}")
+            text = cut_tests(text)
+            for m in re.finditer(r"\bstruct\s+(\w+)\s*(?:<[^>{(;]*>)?\s*([({])", text):
+                name, opener = m.group(1), m.group(2)
+                body = re.sub(r"//[^\n]*", "", matching(text, m.end() - 1))
+                fields = []
+                for k, part in enumerate(split_top(body)):
+                    part = re.sub(r"#\[[^\]]*\]|//[^\n]*", "", part).strip()
+                    part = re.sub(r"^pub(\([a-z: ]+\))?\s+", "", part)
+                    if not part:
+                        continue
+                    if opener == "{":
+                        fm = re.match(r"(\w+)\s*:\s*(.+)$", part, re.S)
+                        if not fm:
+                            raise TrError(f"{what}: cannot read field `{part[:40]}` of struct {name} ({rel})")
+                        fields.append((fm.group(1), fm.group(2)))
+                    else:
+                        fields.append((str(len(fields)), part))
+                self.structs.setdefault(name, (rel, fields))
+            for m in re.finditer(r"\benum\s+(\w+)\s*\{", text):
+                name = m.group(1)
+                body = re.sub(r"//[^\n]*", "", matching(text, m.end() - 1))
+                variants = []
+                for part in split_top(body):
+                    part = re.sub(r"#\[[^\]]*\]|//[^\n]*", "", part).strip()
+                    if not part:
+                        continue
+                    vm = re.match(r"(\w+)\s*(?:\((.*)\))?$", part, re.S)
+                    if not vm:
+                        variants = None       # struct-like variants: not translated (an error only if the enum is used)
+                        break
+                    variants.append((vm.group(1), [a.strip() for a in split_top(vm.group(2))] if vm.group(2) else []))
+                self.enums.setdefault(name, (rel, variants))
+
+    def parse_ty(self, src, self_ty=None):
+        p = Parser(lex(src, self.what), self.what, self_ty)
+        t = p.ty()
+        if not p.at("eof"):
+            raise TrError(f"{self.what}: type `{src}` is outside the translated subset")
+        return t
+
+    def fields(self, sname):
+        if sname not in self.structs:
+            raise TrError(f"{self.what}: no definition of struct `{sname}` in the files read (add it to `types_from`)")
+        return self.structs[sname][1]
+
+    def field_ty(self, sname, f):
+        for n, src in self.fields(sname):
+            if n == f:
+                return self.parse_ty(src, sname)
+        raise TrError(f"{self.what}: struct `{sname}` has no field `{f}`")
+
+    def is_newtype(self, sname):
+        if sname not in self.structs:
+            return False
+        fs = self.structs[sname][1]
+        if len(fs) != 1 or fs[0][0] != "0":
+            return False
+        t = self.parse_ty(fs[0][1], sname)
+        return isinstance(t, str)
+
+    def value_ty(self, t):
+        """type of a VALUE: single-field tuple structs over a primitive are transparent, enums stay named"""
+        if isinstance(t, str):
+            return t
+        if t[0] == "named":
+            n = t[1]
+            if n in self.opaque:
+                return ("opaque", n)
+            if n in self.enums:
+                if self.enums[n][1] is None:
+                    raise TrError(f"{self.what}: enum `{n}` has struct-like variants — outside the translated subset")
+                return ("enum", n)
+            if self.is_newtype(n):
+                return self.field_ty(n, "0")
+            if n in self.structs:
+                return ("struct", n)
+            raise TrError(f"{self.what}: type `{n}` is not defined in the files read (add its file to `types_from`)")
+        if t[0] in ("opt", "list"):
+            return (t[0], self.value_ty(t[1]))
+        if t[0] == "tup":
+            return ("tup", [self.value_ty(x) for x in t[1]])
+        if t[0] == "arr":
+            return ("arr", self.value_ty(t[1]), t[2])
+        return t
+
+
+def cut_tests(text):
+    text = re.sub(r"#\[cfg\(test\)\]\s*(?:pub\s+)?mod\s+\w+\s*\{", "\x00", text)
+    cut = text.find("\x00")
+    return text[:cut] if cut >= 0 else text
+
+
+def matching(text, i):
+    """text[i] is an opening bracket: the text strictly inside it"""
+    op = text[i]
+    cl = {"{": "}", "(": ")", "[": "]"}[op]
+    depth, k = 0, i
+    while k < len(text):
+        if text[k] == op:
+            depth += 1
+        elif text[k] == cl:
+            depth -= 1
+            if depth == 0:
+                return text[i + 1:k]
+        k += 1
+    raise TrError("unbalanced brackets")
+
+
+def split_top(s):
+    out, depth, cur = [], 0, []
+    for c in s or "":
+        if c in "([{<":
+            depth += 1
+        elif c in ")]}>":
+            depth -= 1
+        if c == "," and depth == 0:
+            out.append("".join(cur))
+            cur = []
+        else:
+            cur.append(c)
+    if "".join(cur).strip():
+        out.append("".join(cur))
+    return out
+
+
+def lean_ty(t):
+    if t == "bool":
+        return "Bool"
+    if t == "unit":
+        return "Unit"
+    if isinstance(t, str):
+        return "Nat"
+    if t[0] == "opt":
+        return f"(Option {lean_ty(t[1])})"
+    if t[0] == "list":
+        return f"(List {lean_ty(t[1])})"
+    if t[0] == "tup":
+        return "(" + " × ".join(lean_ty(x) for x in t[1]) + ")"
+    if t[0] == "enum":
+        return t[1]
+    if t[0] == "opaque":
+        return "Nat"
+    raise TrError(f"type {t} has no Lean counterpart in the translated subset")
+
+
+def is_int(t):
+    return isinstance(t, str) and t in WIDTH and t != "bool"
 
 
 # ------------------------------------------------------------------ translation
@@ -321,13 +858,36 @@ def lname(x):
     return x + "_" if x in LEAN_KEYWORDS else x
 
 
+def walk(node, f):
+    """pre-order traversal of an AST made of tuples / lists"""
+    if isinstance(node, tuple):
+        if f(node) is False:
+            return
+        for c in node:
+            walk(c, f)
+    elif isinstance(node, list):
+        for c in node:
+            walk(c, f)
+
+
 class Tr:
     """expression translation returns (lean term, type, prelude) where prelude is a list of
     ('guard', cond) / ('bind', var, optionTerm) that must be established, in order, before the term is meaningful."""
 
-    def __init__(self, what, fns, consts_of):
+    def __init__(self, what, fns, consts_of, types=None, spec=None):
         self.what, self.fns, self.consts_of = what, fns, consts_of
+        self.types, self.spec = types, spec or {}
         self.tmp = 0
+        self.objs = {}          # root variable -> struct name   (self and struct-typed parameters)
+        self.mutleafs = []      # env keys of the leaf fields the function assigns (returned next to the value)
+        self.ret = None
+        self.fuel = False
+        self.valblock = 0
+        self.loops = []
+        self.aux = []           # auxiliary (loop) definitions, emitted before the function
+        self.nloops = 0
+        self.lean = None
+        self.enums_used = []
 
     def fresh(self):
         self.tmp += 1
@@ -335,6 +895,15 @@ class Tr:
 
     def const(self, name):
         return self.consts_of(name)
+
+    def PANIC(self):
+        return "some none" if self.fuel and not self.valblock else "none"
+
+    def OK(self, t):
+        return f"some (some {atomise(t)})" if self.fuel and not self.valblock else f"some {atomise(t)}"
+
+    def wrap(self, prelude, body):
+        return wrap(prelude, body, self.PANIC())
 
     def unify(self, ta, tb, ea, eb):
         if ta is None and tb is None:
@@ -347,27 +916,131 @@ class Tr:
             raise TrError(f"{self.what}: operands of different integer types ({ta} vs {tb}) — add a cast in the subset or extend the translator")
         return ta
 
+    # ---- objects (self / struct-typed parameters): their leaf fields are parameters of the Lean definition
+
+    def path_of(self, e):
+        """['self', 'a', 'b'] for self.a.b when rooted at an object, else None"""
+        comps = []
+        while e[0] == "field":
+            comps.append(e[2])
+            e = e[1]
+        if e[0] == "var" and e[1] in self.objs:
+            return [e[1]] + comps[::-1]
+        return None
+
+    def obj_resolve(self, path):
+        """follow a path through the struct definitions -> ('obj', struct, key) | ('leaf', key, type, rest-of-path)"""
+        s = self.objs[path[0]]
+        key = path[0]
+        for i, c in enumerate(path[1:]):
+            t = self.types.field_ty(s, c)
+            key = key + "." + c
+            if not isinstance(t, str) and t[0] == "named" and t[1] in self.types.structs:
+                s = t[1]
+                continue
+            return ("leaf", key, self.types.value_ty(t), path[i + 2:])
+        return ("obj", s, key)
+
+    def used_leafs(self, body):
+        """env keys of every leaf field the body touches (directly or through a translated method of the object)"""
+        used = []
+
+        def add(k):
+            if k not in used:
+                used.append(k)
+
+        def visit(n):
+            if n[0] in ("field", "var"):
+                p = self.path_of(n)
+                if p is not None:
+                    r = self.obj_resolve(p)
+                    if r[0] == "leaf":
+                        add(r[1])
+                    elif self.types.is_newtype(r[1]):
+                        add(r[2] + ".0")
+                    elif n[0] == "var":
+                        return True
+                    else:
+                        raise TrError(f"{self.what}: struct value `{'.'.join(p)}` used as a whole — outside the translated subset")
+                    return False
+            if n[0] == "method":
+                p = self.path_of(n[2])
+                if p is not None:
+                    r = self.obj_resolve(p)
+                    if r[0] == "obj" and f"{r[1]}::{n[1]}" in self.fns:
+                        for rel, _ in self.fns[f"{r[1]}::{n[1]}"]["selfleafs"]:
+                            add(r[2] + "." + rel)
+                        walk(n[3], visit)
+                        return False
+            return True
+        walk(body, visit)
+        # declaration order: roots in the order of `objs`, fields in the order of the struct definitions
+        ordered = []
+
+        def dfs(s, key):
+            for f, src in self.types.fields(s):
+                k = key + "." + f
+                if k in used:
+                    ordered.append(k)
+                t = self.types.parse_ty(src, s)
+                if not isinstance(t, str) and t[0] == "named" and t[1] in self.types.structs and any(u.startswith(k + ".") for u in used):
+                    dfs(t[1], k)
+        for root, s in self.objs.items():
+            dfs(s, root)
+        missing = [u for u in used if u not in ordered]
+        if missing:
+            raise TrError(f"{self.what}: cannot place the fields {missing}")
+        return ordered
+
+    def leaf_ty(self, key):
+        p = key.split(".")
+        r = self.obj_resolve(p)
+        if r[0] != "leaf" or r[3]:
+            raise TrError(f"{self.what}: `{key}` is not a leaf field")
+        return r[2]
+
+    @staticmethod
+    def leaf_name(key, taken):
+        comps = key.split(".")
+        root, rest = comps[0], comps[1:]
+        named = [c for c in rest if not c.isdigit()]
+        base = "_".join(named) if named else root + "".join(rest)
+        if root != "self" and named:
+            base = root + "_" + base
+        base = lname(base)
+        if base in taken:
+            raise TrError(f"parameter name `{base}` for `{key}` is taken")
+        return base
+
+    # ---- expressions
+
     def expr(self, e, env, want=None):
         k = e[0]
         if k == "lit":
-            return (str(e[1]), e[2] or want, [])
+            return (str(e[1]), e[2] or (want if is_int(want) else None), [])
         if k == "bool":
             return ("true" if e[1] else "false", "bool", [])
         if k == "paren":
             t, ty, p = self.expr(e[1], env, want)
             return (f"({t})", ty, p)
         if k == "var":
-            if e[1] not in env:
-                raise TrError(f"{self.what}: unknown variable `{e[1]}`")
-            return (env[e[1]][0], env[e[1]][1], [])
+            if e[1] in env:
+                return (env[e[1]][0], env[e[1]][1], [])
+            if e[1] in self.objs and e[1] + ".0" in env:
+                return (env[e[1] + ".0"][0], env[e[1] + ".0"][1], [])
+            raise TrError(f"{self.what}: unknown variable `{e[1]}`")
         if k == "const":
             v, ty = self.const(e[1])
             return (str(v), ty, [])
         if k == "as":
             t, ty, p = self.expr(e[1], env, None)
+            if not is_int(e[2]):
+                raise TrError(f"{self.what}: cast to `{e[2]}` is outside the translated subset")
             w = WIDTH[e[2]]
             if ty == "bool":
                 return (f"(if {t} then 1 else 0)", e[2], p)
+            if ty is not None and not is_int(ty):
+                raise TrError(f"{self.what}: cast of a non-integer value")
             if ty is not None and WIDTH[ty] <= w:
                 return (t, e[2], p)            # widening / same width: value unchanged
             return (f"({t} % {2 ** w})", e[2], p)
@@ -382,11 +1055,125 @@ class Tr:
             return self.binop(e, env, want)
         if k == "if":
             return self.ifexpr(e, env, want)
+        if k == "match":
+            t, ty = self.block_value(self.desugar_match(e, env), env, want)
+            v = self.fresh()
+            return (v, ty, [("bind", v, t)])
         if k == "call":
             return self.call(e, env, want)
         if k == "method":
             return self.method(e, env, want)
+        if k == "field":
+            return self.field(e, env, want)
+        if k == "index":
+            return self.index(e, env, want)
+        if k == "some":
+            inner = want[1] if isinstance(want, tuple) and want[0] == "opt" else None
+            t, ty, p = self.expr(e[1], env, inner)
+            return (f"(some {atomise(t)})", ("opt", ty or inner or "usize"), p)
+        if k == "none":
+            if not (isinstance(want, tuple) and want[0] == "opt"):
+                raise TrError(f"{self.what}: `None` where the type is not known")
+            return ("none", want, [])
+        if k == "tuple":
+            ts, tys, pre = [], [], []
+            for i, x in enumerate(e[1]):
+                w = want[1][i] if isinstance(want, tuple) and want[0] == "tup" and len(want[1]) == len(e[1]) else None
+                t, ty, p = self.expr(x, env, w)
+                ts.append(t)
+                tys.append(ty or w or "usize")
+                pre += p
+            if not ts:
+                return ("()", "unit", [])
+            return ("(" + ", ".join(ts) + ")", ("tup", tys), pre)
+        if k == "variant":
+            return self.variant(e[1], [], env)
         raise TrError(f"{self.what}: unsupported expression node {k}")
+
+    def variant(self, path, args, env):
+        en = path[-2]
+        if en == "Self":
+            en = self.spec.get("impl")
+        if self.types is None or en not in self.types.enums or self.types.enums[en][1] is None:
+            raise TrError(f"{self.what}: `{'::'.join(path)}` is not a variant of a translated enum")
+        for vn, vts in self.types.enums[en][1]:
+            if vn == path[-1]:
+                if len(vts) != len(args):
+                    raise TrError(f"{self.what}: variant `{vn}` with {len(args)} arguments")
+                pre, ts = [], []
+                for a, vt in zip(args, vts):
+                    wt = self.types.value_ty(self.types.parse_ty(vt))
+                    if not is_int(wt) and wt != "bool":
+                        raise TrError(f"{self.what}: payload `{vt}` of `{en}::{vn}` is outside the translated subset")
+                    t, ty, p = self.expr(a, env, wt)
+                    if ty is not None and ty != wt:
+                        raise TrError(f"{self.what}: payload of `{en}::{vn}` has type {ty}, expected {wt}")
+                    pre += p
+                    ts.append(atomise(t))
+                if en not in self.enums_used:
+                    self.enums_used.append(en)
+                return (f"({en}.{vn}" + "".join(" " + t for t in ts) + ")" if ts else f"{en}.{vn}", ("enum", en), pre)
+        raise TrError(f"{self.what}: enum `{en}` has no variant `{path[-1]}`")
+
+    def field(self, e, env, want):
+        p = self.path_of(e)
+        if p is not None:
+            r = self.obj_resolve(p)
+            if r[0] == "obj":
+                if self.types.is_newtype(r[1]) and r[2] + ".0" in env:
+                    return (env[r[2] + ".0"][0], env[r[2] + ".0"][1], [])
+                raise TrError(f"{self.what}: struct value `{'.'.join(p)}` used as a whole — outside the translated subset")
+            _, key, ty, rest = r
+            if key not in env:
+                raise TrError(f"{self.what}: field `{key}` is not a parameter (internal)")
+            t, ty = env[key]
+            if isinstance(ty, tuple) and ty[0] == "arr":
+                raise TrError(f"{self.what}: array `{key}` used as a whole — outside the translated subset")
+            pre = []
+            for c in rest:
+                t, ty = self.tuple_field(t, ty, c)
+            return (t, ty, pre)
+        t, ty, pre = self.expr(e[1], env, None)
+        t, ty = self.tuple_field(t, ty, e[2])
+        return (t, ty, pre)
+
+    def tuple_field(self, t, ty, c):
+        if not (isinstance(ty, tuple) and ty[0] == "tup" and c.isdigit() and int(c) < len(ty[1])):
+            raise TrError(f"{self.what}: field `.{c}` of a value of type {ty} is outside the translated subset")
+        i, n = int(c), len(ty[1])
+        sel = ".2" * i + (".1" if i < n - 1 else "")
+        return (f"{atomise(t)}{sel}", ty[1][i])
+
+    def arr_key(self, e):
+        """env key if `e` denotes an array-typed leaf field"""
+        p = self.path_of(e)
+        if p is None:
+            return None
+        r = self.obj_resolve(p)
+        if r[0] == "leaf" and not r[3] and isinstance(r[2], tuple) and r[2][0] == "arr":
+            return r[1]
+        return None
+
+    def index(self, e, env, want):
+        key = self.arr_key(e[1])
+        if key is not None:
+            names, ty = env[key]
+            n = ty[2]
+            if e[2][0] == "lit":
+                if e[2][1] >= n:
+                    raise TrError(f"{self.what}: constant index {e[2][1]} out of the bounds of `{key}`")
+                return (names[e[2][1]], ty[1], [])
+            ti, _, pi = self.expr(e[2], env, "usize")
+            sel = names[n - 1]
+            for j in range(n - 2, -1, -1):
+                sel = f"(if {ti} = {j} then {names[j]} else {sel})"
+            return (sel, ty[1], pi + [("guard", f"{ti} < {n}")])
+        t, ty, p = self.expr(e[1], env, None)
+        if not (isinstance(ty, tuple) and ty[0] == "list"):
+            raise TrError(f"{self.what}: indexing a value of type {ty} is outside the translated subset")
+        ti, _, pi = self.expr(e[2], env, "usize")
+        v = self.fresh()
+        return (v, ty[1], p + pi + [("bind", v, f"({atomise(t)}[{ti}]?)")])
 
     def binop(self, e, env, want):
         _, op, a, b = e
@@ -407,6 +1194,10 @@ class Tr:
             lop = {"==": "==", "!=": "!=", "<": "<", "<=": "≤", ">": ">", ">=": "≥"}[op]
             if tya == "bool":
                 return (f"({ta} {lop} {tb})", "bool", pa + pb)
+            if (tya is not None and not is_int(tya)) or (tyb is not None and not is_int(tyb)):
+                raise TrError(f"{self.what}: comparison of non-integer values ({tya}) is outside the translated subset")
+            if tya is not None and tyb is not None and tya != tyb:
+                raise TrError(f"{self.what}: comparison of different integer types ({tya} vs {tyb})")
             return (f"(decide ({ta} {lop if lop not in ('==', '!=') else {'==': '=', '!=': '≠'}[lop]} {tb}))", "bool", pa + pb)
         if op in ("<<", ">>"):
             ta, tya, pa = self.expr(a, env, want)
@@ -430,6 +1221,8 @@ class Tr:
             raise TrError(f"{self.what}: arithmetic on bool")
         if ty is None:
             ty = "usize"
+        if not is_int(ty):
+            raise TrError(f"{self.what}: arithmetic on a value of type {ty}")
         w = WIDTH[ty]
         pre = pa + pb
         if op == "+":
@@ -460,8 +1253,30 @@ class Tr:
     def block_value(self, stmts, env, want):
         """a block in expression position -> (Option-valued lean term, type)"""
         tys = []
-        t = self.stmts(stmts, dict(env), want, tys)
+        self.valblock += 1
+        try:
+            t = self.stmts(stmts, dict(env), want, tys)
+        finally:
+            self.valblock -= 1
         return t, (tys[0] if tys else want)
+
+    def callee(self, spec, leaf_args, args, env):
+        """call of a translated function: leaf fields of its object first, then the explicit arguments"""
+        if len(spec["params"]) != len(args):
+            raise TrError(f"{self.what}: call of `{spec['lean']}` with {len(args)} arguments")
+        if spec.get("fuel"):
+            raise TrError(f"{self.what}: call of `{spec['lean']}`, which contains an unbounded loop — outside the translated subset")
+        if spec.get("mutleafs"):
+            raise TrError(f"{self.what}: call of the mutating method `{spec['lean']}` — outside the translated subset")
+        pre, ts = [], list(leaf_args)
+        for (pn, pt), a in zip(spec["params"], args):
+            t, ty, p = self.expr(a, env, pt)
+            if ty is not None and pt is not None and ty != pt:
+                raise TrError(f"{self.what}: argument `{pn}` of `{spec['lean']}` has type {ty}, expected {pt}")
+            pre += p
+            ts.append(t if re.fullmatch(r"[\w']+", t) else f"({t})")
+        v = self.fresh()
+        return (v, spec["ret"], pre + [("bind", v, f"({spec['lean']}{''.join(' ' + t for t in ts)})")])
 
     def call(self, e, env, want):
         _, path, args = e
@@ -472,18 +1287,26 @@ class Tr:
             if tya is None and tyb is not None:
                 ta, tya, pa = self.expr(args[0], env, tyb)
             return (f"(Nat.{name} {ta} {tb})", tya or tyb, pa + pb)
-        if len(path) == 1 and name in self.fns:
-            lean, params, ret = self.fns[name]
-            if len(params) != len(args):
-                raise TrError(f"{self.what}: call of `{name}` with {len(args)} arguments")
-            pre, ts = [], []
-            for (pn, pt), a in zip(params, args):
-                t, ty, p = self.expr(a, env, pt)
-                pre += p
-                ts.append(t if re.fullmatch(r"[\w']+", t) else f"({t})")
-            v = self.fresh()
-            return (v, ret, pre + [("bind", v, f"({lean} {' '.join(ts)})")])
-        raise TrError(f"{self.what}: call of `{'::'.join(path)}` — not a translated function")
+        full = "::".join(path)
+        if full in self.spec.get("calls", {}):
+            return self.callee(self.fns["=" + self.spec["calls"][full]], [], args, env)
+        if len(path) == 1 and name in self.fns and "selfleafs" not in self.fns[name]:
+            if self.fns[name].get("ambiguous"):
+                raise TrError(f"{self.what}: call of `{name}`: several translated functions have this name — name the one meant in the target's `calls`")
+            return self.callee(self.fns[name], [], args, env)
+        if self.types is not None:
+            tname = self.spec.get("impl") if path[0] == "Self" else path[0]
+            if len(path) == 1 and tname in self.types.structs and self.types.is_newtype(tname) and len(args) == 1:
+                inner = self.types.field_ty(tname, "0")
+                t, ty, p = self.expr(args[0], env, inner)
+                if ty is not None and ty != inner:
+                    raise TrError(f"{self.what}: `{tname}(…)` of a value of type {ty}, expected {inner}")
+                return (t, inner, p)
+            if len(path) == 2 and tname in self.types.enums:
+                return self.variant([tname, path[1]], args, env)
+            if len(path) == 2 and f"{tname}::{name}" in self.fns and not self.fns[f"{tname}::{name}"]["selfleafs"]:
+                return self.callee(self.fns[f"{tname}::{name}"], [], args, env)
+        raise TrError(f"{self.what}: call of `{full}` — not a translated function")
 
     def method(self, e, env, want):
         _, m, recv, args = e
@@ -508,10 +1331,47 @@ class Tr:
             v = self.fresh()
             inner = f"(let {mv} := ({tb} <<< {ts}) % {2 ** w}; {wrap(pbody, 'some ' + atomise(tbody))})"
             return (v, tybody or tyb, pb + ps + [("bind", v, f"(if {ts} < {w} then {inner} else some {atomise(td)})")])
-        tr, tyr, pr = self.expr(recv, env, want)
+        # a translated method of an object (self / a struct-typed parameter / a struct-typed field)
+        p = self.path_of(recv)
+        if p is not None:
+            r = self.obj_resolve(p)
+            if r[0] == "obj":
+                fk = f"{r[1]}::{m}"
+                if fk not in self.fns:
+                    raise TrError(f"{self.what}: method `{r[1]}::{m}` is not a translated function")
+                spec = self.fns[fk]
+                leafs = []
+                for rel, lt in spec["selfleafs"]:
+                    names = env[r[2] + "." + rel][0]
+                    leafs += names if isinstance(names, list) else [names]
+                return self.callee(spec, leafs, args, env)
+        if any(a[0] == "closure" for a in args):
+            raise TrError(f"{self.what}: closure argument of `.{m}()` is outside the translated subset")
+        tr, tyr, pr = self.expr(recv, env, want if m in ("saturating_sub", "saturating_add", "wrapping_add", "wrapping_sub", "wrapping_mul",
+                                                        "min", "max", "div_ceil", "next_multiple_of", "pow") else None)
+        if m in ("clone", "copied", "cloned", "as_ref") and not args:
+            return (tr, tyr, pr)
+        if isinstance(tyr, tuple) and tyr[0] == "opt":
+            if m == "unwrap" or m == "expect":
+                v = self.fresh()
+                return (v, tyr[1], pr + [("bind", v, tr)])
+            if m == "unwrap_or":
+                td, tyd, pd = self.expr(args[0], env, tyr[1])
+                return (f"(Option.getD {atomise(tr)} {atomise(td)})", tyr[1], pr + pd)   # the default is evaluated first in Rust too (eager)
+            if m in ("is_none", "is_some"):
+                return (f"(Option.{'isNone' if m == 'is_none' else 'isSome'} {atomise(tr)})", "bool", pr)
+            raise TrError(f"{self.what}: method `.{m}()` on an Option is outside the translated subset")
+        if isinstance(tyr, tuple) and tyr[0] == "list":
+            if m == "len":
+                return (f"(List.length {atomise(tr)})", "usize", pr)
+            if m == "is_empty":
+                return (f"(List.isEmpty {atomise(tr)})", "bool", pr)
+            raise TrError(f"{self.what}: method `.{m}()` on a slice / Vec is outside the translated subset")
         if tyr is None:
-            tyr = want or "usize"
-        w = WIDTH.get(tyr, 64)
+            tyr = want if is_int(want) else "usize"
+        if not is_int(tyr):
+            raise TrError(f"{self.what}: method `.{m}()` on a value of type {tyr} is outside the translated subset")
+        w = WIDTH[tyr]
 
         def arg(i, wt=None):
             return self.expr(args[i], env, wt or tyr)
@@ -528,6 +1388,16 @@ class Tr:
         if m == "wrapping_sub":
             ta, _, pa = arg(0)
             return (f"(({tr} + {2 ** w} - {ta}) % {2 ** w})", tyr, pr + pa)
+        if m in ("checked_add", "checked_mul"):
+            ta, _, pa = arg(0)
+            o = "+" if m == "checked_add" else "*"
+            return (f"(if {tr} {o} {ta} < {2 ** w} then some ({tr} {o} {ta}) else none)", ("opt", tyr), pr + pa)
+        if m == "checked_sub":
+            ta, _, pa = arg(0)
+            return (f"(if {ta} ≤ {tr} then some ({tr} - {ta}) else none)", ("opt", tyr), pr + pa)
+        if m == "abs_diff":
+            ta, _, pa = arg(0)
+            return (f"(({tr} - {ta}) + ({ta} - {tr}))", tyr, pr + pa)
         if m in ("min", "max"):
             ta, _, pa = arg(0)
             return (f"(Nat.{m} {tr} {ta})", tyr, pr + pa)
@@ -542,63 +1412,399 @@ class Tr:
             return (f"({tr} ^ {ta})", tyr, pr + pa + [("guard", f"{tr} ^ {ta} < {2 ** w}")])
         if m == "is_power_of_two":
             return (f"(decide ({tr} ≠ 0 ∧ {tr} &&& ({tr} - 1) = 0))", "bool", pr)
+        if m == "count_ones":
+            return (f"(popcount {w} {atomise(tr)})", "u32", pr)
+        if m == "trailing_zeros":
+            return (f"(ctz {w} {atomise(tr)})", "u32", pr)
+        if m == "leading_zeros":
+            return (f"(clz {w} {atomise(tr)})", "u32", pr)
         raise TrError(f"{self.what}: method `.{m}()` is outside the translated subset")
 
-    # statements -> Option-valued term (continuation style; `rest` is duplicated into both arms of a statement-if)
+    # ---- `match`: desugared into `let` / `if` chains (integers) or a Lean `match` (Option)
+
+    def desugar_match(self, node, env):
+        _, scrut, arms = node
+        if any(a[0][0] in ("pnone", "psome") for a in arms):
+            none_body = some_body = some_pat = None
+            for pat, guard, body in arms:
+                if guard is not None:
+                    raise TrError(f"{self.what}: guard on an Option pattern is outside the translated subset")
+                if pat[0] == "pnone" and none_body is None:
+                    none_body = body
+                elif pat[0] == "psome" and some_body is None:
+                    some_pat, some_body = pat[1], body
+                elif pat[0] == "pwild":
+                    if none_body is None:
+                        none_body = body
+                    if some_body is None:
+                        some_pat, some_body = ("pwild",), body
+                else:
+                    raise TrError(f"{self.what}: this `match` on an Option is outside the translated subset")
+            if none_body is None or some_body is None:
+                raise TrError(f"{self.what}: `match` on an Option without both cases")
+            return [("matchopt", scrut, none_body, some_pat, some_body)]
+        tmp = "match_scrutinee"
+        out = [("let", tmp, None, scrut)]
+
+        def chain(rest):
+            if not rest:
+                return [("panic",)]          # Rust matches are exhaustive: not reachable
+            (pat, guard, body), more = rest[0], rest[1:]
+            if pat[0] == "plit":
+                c = ("bin", "==", ("var", tmp), ("lit", pat[1], None))
+                if guard is not None:
+                    c = ("bin", "&&", c, guard)
+                return [("ifstmt", ("if", c, body, chain(more)))]
+            if pat[0] in ("pwild", "pbind"):
+                pre = [("let", pat[1], None, ("var", tmp))] if pat[0] == "pbind" else []
+                if guard is None:
+                    return pre + body
+                return pre + [("ifstmt", ("if", guard, body, chain(more)))]
+            raise TrError(f"{self.what}: pattern {pat[0]} in an integer `match` is outside the translated subset")
+        return out + chain(arms)
+
+    # ---- statements -> Option-valued term (continuation style; `rest` is duplicated into both arms of a statement-if)
+
+    def ret_term(self, env, t, ty):
+        """the value handed back at a return point: the returned value, then the assigned leaf fields (declaration order)"""
+        if self.valblock or not self.mutleafs:
+            return t if t is not None else "()"
+        comps = [] if t is None else [t]
+        for k in self.mutleafs:
+            names = env[k][0]
+            comps += names if isinstance(names, list) else [names]
+        return comps[0] if len(comps) == 1 else "(" + ", ".join(comps) + ")"
+
     def stmts(self, ss, env, ret, tys=None):
         if not ss:
-            raise TrError(f"{self.what}: control reaches the end of a block without a value")
+            if self.valblock or self.ret != "unit":
+                raise TrError(f"{self.what}: control reaches the end of a block without a value")
+            if self.loops:
+                return self.stmts([("continue", None)], env, ret, tys)
+            return self.OK(self.ret_term(env, None, "unit"))
         s, rest = ss[0], ss[1:]
         k = s[0]
-        if k == "return" and s[1][0] == "if" and s[1][3] is not None:
+        if k == "return" and len(s) > 2 and self.valblock:
+            raise TrError(f"{self.what}: `return` inside a block in expression position is outside the translated subset")
+        if k == "return" and s[1] is not None and s[1][0] == "if" and s[1][3] is not None:
             # a value-`if` in tail position: both arms are tails themselves (no temporary)
             _, c, a, b = s[1]
             tc, _, pc = self.expr(c, env, "bool")
             ta = self.stmts(a, dict(env), ret, tys)
             tb = self.stmts(b, dict(env), ret, tys)
-            return wrap(pc, f"(if {tc} then\n{ta}\nelse\n{tb})")
+            return self.wrap(pc, f"(if {tc} then\n{ta}\nelse\n{tb})")
+        if k == "return" and s[1] is not None and s[1][0] == "match":
+            return self.stmts(self.desugar_match(s[1], env), env, ret, tys)
         if k == "return":
+            if s[1] is None:
+                if self.ret != "unit" or self.valblock:
+                    raise TrError(f"{self.what}: `return;` in a function with a value")
+                return self.OK(self.ret_term(env, None, "unit"))
             t, ty, p = self.expr(s[1], env, ret)
+            if not self.valblock and ret is not None and ty is not None and ty != ret:
+                raise TrError(f"{self.what}: returns a value of type {ty}, declared {ret}")
             if tys is not None:
                 tys.append(ty)
-            return wrap(p, f"some {atomise(t)}")
+            return self.wrap(p, self.OK(self.ret_term(env, t, ty)))
         if k == "let" or k == "assign":
             if k == "let":
                 _, x, ty, e = s
+                if ty is None and x in self.spec.get("hints", {}):
+                    ty = self.spec["hints"][x]
+                if ty is not None and self.types is not None:
+                    ty = self.types.value_ty(ty)
             else:
                 _, x, e = s
                 if x not in env:
                     raise TrError(f"{self.what}: assignment to unknown `{x}`")
                 ty = env[x][1]
             t, ty2, p = self.expr(e, env, ty)
+            if ty is not None and ty2 is not None and ty != ty2:
+                raise TrError(f"{self.what}: `{x}` of type {ty} bound to a value of type {ty2}")
             ty = ty or ty2 or "usize"
             # fresh Lean name on re-binding so that shadowing / mutation never captures
-            base = lname(x)
-            n = sum(1 for v in env.values() if v[0] == base or v[0].startswith(base + "'"))
-            ln = base + "'" * n
             env2 = dict(env)
+            ln = self.bind_name(x, env)
             env2[x] = (ln, ty)
             body = self.stmts(rest, env2, ret, tys)
-            return wrap(p, f"(let {ln} := {t}\n{body})")
+            return self.wrap(p, f"(let {ln} := {t}\n{body})")
+        if k == "assign_place":
+            return self.assign_place(s, rest, env, ret, tys)
         if k == "assert":
             t, _, p = self.expr(s[1], env, "bool")
-            return wrap(p + [("guard", f"{t} = true")], self.stmts(rest, env, ret, tys))
+            return self.wrap(p + [("guard", f"{t} = true")], self.stmts(rest, env, ret, tys))
+        if k == "panic":
+            return self.PANIC()
         if k == "ifstmt":
             _, c, a, b = s[1]
             tc, _, pc = self.expr(c, env, "bool")
             # NOTE: variables assigned inside an arm are visible in `rest` only through duplication of `rest`
             ta = self.stmts_then(a, rest, env, ret, tys)
             tb = self.stmts_then(b or [], rest, env, ret, tys)
-            return wrap(pc, f"(if {tc} then\n{ta}\nelse\n{tb})")
+            return self.wrap(pc, f"(if {tc} then\n{ta}\nelse\n{tb})")
+        if k == "matchstmt":
+            d = self.desugar_match(s[1], env)
+            if d[0][0] == "matchopt":
+                return self.stmts(d + rest, env, ret, tys) if False else self.matchopt(d[0], rest, env, ret, tys)
+            # integer match: `let scrutinee`, then an if-chain whose arms continue with `rest`
+            return self.stmts(self.push_rest(d, rest), env, ret, tys)
+        if k == "matchopt":
+            return self.matchopt(s, rest, env, ret, tys)
+        if k == "letelse":
+            _, x, e, els = s
+            t, ty, p = self.expr(e, env, None)
+            if not (isinstance(ty, tuple) and ty[0] == "opt"):
+                raise TrError(f"{self.what}: `let Some({x}) = …` on a value of type {ty}")
+            tn = self.stmts(els + [("panic",)], dict(env), ret, tys)      # the else block diverges
+            env2 = dict(env)
+            ln = self.bind_name(x, env)
+            env2[x] = (ln, ty[1])
+            tsome = self.stmts(rest, env2, ret, tys)
+            return self.wrap(p, f"(match {t} with\n| none =>\n{tn}\n| some {ln} =>\n{tsome})")
+        if k == "exprstmt":
+            e = s[1]
+            if e[0] == "method":
+                t, ty, p = self.expr(e, env, None)
+                if ty != "unit":
+                    raise TrError(f"{self.what}: the value of `.{e[1]}()` is discarded — outside the translated subset")
+                return self.wrap(p, self.stmts(rest, env, ret, tys))
+            raise TrError(f"{self.what}: expression statement is outside the translated subset")
+        if k == "loop":
+            return self.loop(s, rest, env, ret, tys)
+        if k == "for":
+            return self.for_(s, rest, env, ret, tys)
+        if k in ("continue", "break"):
+            lp = self.find_loop(s[1])
+            if k == "continue":
+                return lp["again"](env)
+            return self.stmts(lp["rest"], env, ret, tys)
         raise TrError(f"{self.what}: unsupported statement {k}")
+
+    def bind_name(self, x, env):
+        base = lname(x)
+        taken = set()
+        for v in env.values():
+            for nm in (v[0] if isinstance(v[0], list) else [v[0]]):
+                taken.add(nm)
+        ln = base
+        while ln in taken:
+            ln += "'"
+        return ln
+
+    def push_rest(self, ss, rest):
+        """`ss ; rest` for a desugared integer match: the lets stay in front, the final if-chain takes `rest` in every arm"""
+        return list(ss) + list(rest)
+
+    def matchopt(self, s, rest, env, ret, tys):
+        _, scrut, none_body, some_pat, some_body = s
+        t, ty, p = self.expr(scrut, env, None)
+        if not (isinstance(ty, tuple) and ty[0] == "opt"):
+            raise TrError(f"{self.what}: `match` with Option patterns on a value of type {ty}")
+        tn = self.stmts(list(none_body) + list(rest), dict(env), ret, tys)
+        env2 = dict(env)
+        v = self.bind_name("opt_payload", env)
+        env2["opt_payload"] = (v, ty[1])
+        pre = []
+
+        def destructure(pat, src):
+            if pat[0] == "pwild":
+                return
+            if pat[0] == "pbind":
+                pre.append(("let", pat[1], None, src))
+                return
+            if pat[0] == "ptup":
+                for i, sp in enumerate(pat[1]):
+                    destructure(sp, ("field", src, str(i)))
+                return
+            raise TrError(f"{self.what}: pattern {pat[0]} inside `Some(…)` is outside the translated subset")
+        destructure(some_pat, ("var", "opt_payload"))
+        tsome = self.stmts(pre + list(some_body) + list(rest), env2, ret, tys)
+        return self.wrap(p, f"(match {t} with\n| none =>\n{tn}\n| some {v} =>\n{tsome})")
+
+    def assign_place(self, s, rest, env, ret, tys):
+        _, place, e = s
+        if place[0] == "index":
+            key = self.arr_key(place[1])
+            if key is not None:
+                names, ty = env[key]
+                n = ty[2]
+                tv, tyv, pv = self.expr(e, env, ty[1])
+                if tyv is not None and tyv != ty[1]:
+                    raise TrError(f"{self.what}: element of `{key}` assigned a value of type {tyv}")
+                env2 = dict(env)
+                new = list(names)
+                lets = []
+                if place[2][0] == "lit":
+                    j = place[2][1]
+                    if j >= n:
+                        raise TrError(f"{self.what}: constant index {j} out of the bounds of `{key}`")
+                    pi, g = [], []
+                    new[j] = self.bind_name(names[j], env)
+                    lets.append((new[j], tv))
+                else:
+                    ti, _, pi = self.expr(place[2], env, "usize")
+                    g = [("guard", f"{ti} < {n}")]
+                    v = self.bind_name("assigned", env)
+                    lets.append((v, tv))
+                    envt = dict(env)
+                    envt["\x00assigned"] = (v, ty[1])
+                    for j in range(n):
+                        new[j] = self.bind_name(names[j], envt)
+                        lets.append((new[j], f"(if {ti} = {j} then {v} else {names[j]})"))
+                env2[key] = (new, ty)
+                body = self.stmts(rest, env2, ret, tys)
+                for ln, val in reversed(lets):
+                    body = f"(let {ln} := {val}\n{body})"
+                # Rust evaluates the index and its bounds check before the compound assignment's read-modify-write
+                return self.wrap(pi + g + pv, body)
+            # element of a Vec / slice leaf
+            p = self.path_of(place[1])
+            if p is not None:
+                r = self.obj_resolve(p)
+                if r[0] == "leaf" and not r[3] and isinstance(r[2], tuple) and r[2][0] == "list":
+                    key = r[1]
+                    name, ty = env[key]
+                    ti, _, pi = self.expr(place[2], env, "usize")
+                    tv, tyv, pv = self.expr(e, env, ty[1])
+                    if tyv is not None and tyv != ty[1]:
+                        raise TrError(f"{self.what}: element of `{key}` assigned a value of type {tyv}")
+                    env2 = dict(env)
+                    ln = self.bind_name(name, env)
+                    env2[key] = (ln, ty)
+                    body = self.stmts(rest, env2, ret, tys)
+                    # the value is computed first, then the bounds check of the store
+                    return self.wrap(pv + pi + [("guard", f"{ti} < List.length {name}")], f"(let {ln} := List.set {name} {atomise(ti)} {atomise(tv)}\n{body})")
+            raise TrError(f"{self.what}: assignment to this indexed place is outside the translated subset")
+        p = self.path_of(place)
+        if p is None:
+            raise TrError(f"{self.what}: assignment to this place is outside the translated subset")
+        r = self.obj_resolve(p)
+        if r[0] == "obj" and self.types.is_newtype(r[1]):
+            key, ty = r[2] + ".0", env[r[2] + ".0"][1]
+        elif r[0] == "leaf" and not r[3]:
+            key, ty = r[1], r[2]
+        else:
+            raise TrError(f"{self.what}: assignment to `{'.'.join(p)}` is outside the translated subset")
+        if isinstance(ty, tuple) and ty[0] == "arr":
+            raise TrError(f"{self.what}: assignment of a whole array is outside the translated subset")
+        t, ty2, pr = self.expr(e, env, ty)
+        if ty2 is not None and ty2 != ty:
+            raise TrError(f"{self.what}: `{key}` of type {ty} assigned a value of type {ty2}")
+        env2 = dict(env)
+        ln = self.bind_name(env[key][0], env)
+        env2[key] = (ln, ty)
+        body = self.stmts(rest, env2, ret, tys)
+        return self.wrap(pr, f"(let {ln} := {t}\n{body})")
 
     def stmts_then(self, arm, rest, env, ret, tys):
         """translate `arm ; rest` where env changes made by `arm` (assignments) flow into rest"""
         return self.stmts(list(arm) + list(rest), env, ret, tys)
 
+    # ---- loops: auxiliary recursive definitions
+
+    def find_loop(self, label):
+        if not self.loops:
+            raise TrError(f"{self.what}: `break` / `continue` outside a loop")
+        if label is None:
+            return self.loops[-1]
+        for lp in reversed(self.loops):
+            if lp["label"] == label:
+                return lp
+        raise TrError(f"{self.what}: unknown loop label {label}")
+
+    def loop_formals(self, env):
+        keys, formals, seen = [], [], set()
+        for key, (names, ty) in env.items():
+            nl = names if isinstance(names, list) else [names]
+            tl = [ty[1]] * len(nl) if isinstance(names, list) else [ty]
+            if any(nm in seen for nm in nl):
+                continue
+            keys.append(key)
+            for nm, t in zip(nl, tl):
+                seen.add(nm)
+                formals.append((nm, lean_ty(t)))
+        return keys, formals
+
+    def actuals(self, keys, env):
+        out = []
+        for key in keys:
+            names = env[key][0]
+            out += names if isinstance(names, list) else [names]
+        return out
+
+    def ret_lean_ty(self):
+        comps = [] if self.ret == "unit" else [lean_ty(self.ret)]
+        for k in self.mutleafs:
+            ty = self.leaf_ty(k)
+            if isinstance(ty, tuple) and ty[0] == "arr":
+                comps += [lean_ty(ty[1])] * ty[2]
+            else:
+                comps.append(lean_ty(ty))
+        if not comps:
+            comps = ["Unit"]
+        inner = comps[0] if len(comps) == 1 else "(" + " × ".join(comps) + ")"
+        return f"Option (Option {inner})" if self.fuel else f"Option {inner}"
+
+    def loop(self, s, rest, env, ret, tys):
+        _, label, body = s
+        if self.valblock:
+            raise TrError(f"{self.what}: loop inside a block in expression position is outside the translated subset")
+        if self.loops:
+            raise TrError(f"{self.what}: nested loops are outside the translated subset")
+        self.nloops += 1
+        aux = f"{self.lean}_loop{self.nloops}"
+        keys, formals = self.loop_formals(env)
+        lp = {"label": label, "rest": list(rest),
+              "again": lambda env2: f"({aux} fuel{''.join(' ' + a for a in self.actuals(keys, env2))})"}
+        self.loops.append(lp)
+        try:
+            tb = self.stmts(list(body) + [("continue", None)], dict(env), ret, tys)
+        finally:
+            self.loops.pop()
+        sig = " ".join(f"({n} : {t})" for n, t in formals)
+        self.aux.append(f"/-- the `loop` of `{self.lean}`: one unit of `fuel` per iteration; outer `none` = the fuel ran out -/\n"
+                        f"def {aux} (fuel : Nat) {sig} : {self.ret_lean_ty()} :=\n  match fuel with\n  | 0 => none\n  | fuel + 1 =>\n{indent(tb)}\n")
+        return f"({aux} fuel{''.join(' ' + a for a in self.actuals(keys, env))})"
+
+    def for_(self, s, rest, env, ret, tys):
+        _, label, x, lo, hi, rev, body = s
+        if self.valblock:
+            raise TrError(f"{self.what}: loop inside a block in expression position is outside the translated subset")
+        if self.loops:
+            raise TrError(f"{self.what}: nested loops are outside the translated subset")
+        tlo, tylo, plo = self.expr(lo, env, "usize")
+        thi, tyhi, phi = self.expr(hi, env, tylo or "usize")
+        ity = tylo or tyhi or "usize"
+        env = dict(env)
+        nlo, nhi = self.bind_name("range_start", env), None
+        env["\x00range_start"] = (nlo, ity)
+        nhi = self.bind_name("range_end", env)
+        env["\x00range_end"] = (nhi, ity)
+        self.nloops += 1
+        aux = f"{self.lean}_loop{self.nloops}"
+        keys, formals = self.loop_formals(env)
+        lp = {"label": label, "rest": list(rest),
+              "again": lambda env2: f"({aux} remaining{''.join(' ' + a for a in self.actuals(keys, env2))})"}
+        envb = dict(env)
+        ix = self.bind_name(x, env)
+        envb[x] = (ix, ity)
+        self.loops.append(lp)
+        try:
+            tb = self.stmts(list(body) + [("continue", None)], envb, ret, tys)
+        finally:
+            self.loops.pop()
+        tdone = self.stmts(list(rest), dict(env), ret, tys)
+        cur = f"{nlo} + remaining" if rev else f"{nhi} - (remaining + 1)"
+        sig = " ".join(f"({n} : {t})" for n, t in formals)
+        self.aux.append(f"/-- the `for` loop of `{self.lean}`: `remaining` iterations are left (structural recursion, no fuel) -/\n"
+                        f"def {aux} (remaining : Nat) {sig} : {self.ret_lean_ty()} :=\n  match remaining with\n  | 0 =>\n{indent(tdone)}\n  | remaining + 1 =>\n"
+                        f"  (let {ix} := {cur}\n{indent(tb)})\n")
+        call = f"({aux} ({nhi} - {nlo}){''.join(' ' + a for a in self.actuals(keys, env))})"
+        return self.wrap(plo + phi, f"(let {nlo} := {tlo}\n(let {nhi} := {thi}\n{call}))")
+
 
 def atomise(t):
-    return t if re.fullmatch(r"[\w']+|\(.*\)", t) and balanced(t) else f"({t})"
+    return t if re.fullmatch(r"[\w'.]+|\(.*\)", t) and balanced(t) else f"({t})"
 
 
 def balanced(t):
@@ -613,14 +1819,14 @@ def balanced(t):
     return True
 
 
-def wrap(prelude, body):
+def wrap(prelude, body, panic="none"):
     """establish the prelude (in order), then `body` (an Option-valued term)"""
     out = body
     for item in reversed(prelude):
         if item[0] == "guard":
-            out = f"(if {item[1]} then\n{out}\nelse none)"
+            out = f"(if {item[1]} then\n{out}\nelse {panic})"
         else:
-            out = f"(match {item[2]} with\n| none => none\n| some {item[1]} =>\n{out})"
+            out = f"(match {item[2]} with\n| none => {panic}\n| some {item[1]} =>\n{out})"
     return out
 
 
@@ -635,22 +1841,8 @@ def indent(text, n=2):
 
 # ------------------------------------------------------------------ source access
 
-def find_fn(rel, name):
-    text = GC.read(rel)
-    if text is None:
-        raise TrError(f"function {name}: file {rel} not found in {REPO}")
-    # drop #[cfg(test)] mod tests { … } so that test helpers of the same name are not picked up
-    text = re.sub(r"#\[cfg\(test\)\]\s*mod\s+\w+\s*\{", "\x00", text)
-    cut = text.find("\x00")
-    if cut >= 0:
-        text = text[:cut]
-    ms = list(re.finditer(r"^[ \t]*(?:pub(?:\([a-z: ]+\))?[ \t]+)?fn[ \t]+" + re.escape(name) + r"[ \t]*\(", text, re.M))
-    ms = [m for m in ms if not re.match(r"\s*(?:&\s*(?:mut\s+)?)?self\b", text[m.end():])]   # methods of the same name are other functions
-    if not ms:
-        raise TrError(f"function {name}: no free `fn {name}(` in {rel} (renamed or removed?)")
-    if len(ms) > 1:
-        raise TrError(f"function {name}: defined {len(ms)} times in {rel}")
-    i = text.index("fn", ms[0].start())
+def body_at(text, i):
+    """text[i:] starts with `fn`: the item up to the brace matching its first `{`"""
     j = text.index("{", i)
     depth, k = 0, j
     while k < len(text):
@@ -661,47 +1853,210 @@ def find_fn(rel, name):
             if depth == 0:
                 break
         k += 1
-    return text[i:k + 1], text.count("\n", 0, i) + 1
+    return text[i:k + 1]
+
+
+def find_fn(rel, name, impl=None):
+    text = GC.read(rel)
+    if text is None:
+        raise TrError(f"function {name}: file {rel} not found in {REPO}")
+    # drop #[cfg(test)] mod tests { … } so that test helpers of the same name are not picked up
+    text = cut_tests(text)
+    fn_re = r"^[ \t]*(?:pub(?:\([a-z: ]+\))?[ \t]+)?fn[ \t]+" + re.escape(name) + r"[ \t]*(?:<[^>]*>)?[ \t]*\("
+    if impl is None:
+        ms = list(re.finditer(fn_re, text, re.M))
+        ms = [m for m in ms if not re.match(r"\s*(?:&\s*(?:mut\s+)?)?self\b", text[m.end():])]   # methods of the same name are other functions
+        if not ms:
+            raise TrError(f"function {name}: no free `fn {name}(` in {rel} (renamed or removed?)")
+        if len(ms) > 1:
+            raise TrError(f"function {name}: defined {len(ms)} times in {rel}")
+        i = text.index("fn", ms[0].start())
+        return body_at(text, i), text.count("\n", 0, i) + 1
+    hits = []
+    for im in re.finditer(r"^[ \t]*impl\b[^{;]*?\b" + re.escape(impl) + r"\b(?:<[^>{]*>)?\s*\{", text, re.M):
+        if re.search(r"\bfor\s+\w+", im.group(0)) and not re.search(r"\bfor\s+" + re.escape(impl) + r"\b", im.group(0)):
+            continue            # `impl Trait<X> for Other`
+        start = im.end() - 1
+        block = matching(text, start)
+        for m in re.finditer(fn_re, block, re.M):
+            # only methods at depth 1 of the impl block
+            if block.count("{", 0, m.start()) != block.count("}", 0, m.start()):
+                continue
+            i = start + 1 + block.index("fn", m.start())
+            hits.append(i)
+    if not hits:
+        raise TrError(f"function {impl}::{name}: no `fn {name}(` in an `impl {impl}` of {rel} (renamed or removed?)")
+    if len(hits) > 1:
+        raise TrError(f"function {impl}::{name}: defined {len(hits)} times in {rel}")
+    return body_at(text, hits[0]), text.count("\n", 0, hits[0]) + 1
 
 
 _const_cache = {}
 
 
-def const_value(name, rel):
-    """value and Rust type of an UPPER_CASE constant used by a function in file `rel` (its own file first, then a unique definition elsewhere)"""
-    if name in _const_cache:
-        return _const_cache[name]
-    frel, line, ty, expr, src = GC.find_const(name, [rel])
+def const_value(name, rel, extra=()):
+    """value and Rust type of an UPPER_CASE constant used by a function in file `rel` (its own file first, then the target's
+    `const_from` files, then a unique definition elsewhere)"""
+    if (name, rel) in _const_cache:
+        return _const_cache[(name, rel)]
+    frel, line, ty, expr, src = GC.find_const(name, [rel] + list(extra))
     env = {}
     for dep in sorted(set(re.findall(r"\b[A-Z][A-Z0-9_]{2,}\b", expr))):
         if dep != name and dep not in ("MAX", "MIN", "BITS"):
             env[dep] = const_value(dep, frel)[0]
     v = GC.eval_int(expr, env, f"constant {name} ({frel}:{line})")
     ty = ty.strip()
-    _const_cache[name] = (v, ty if ty in WIDTH else None)
-    return _const_cache[name]
+    _const_cache[(name, rel)] = (v, ty if ty in WIDTH else None)
+    return _const_cache[(name, rel)]
+
+
+PRELUDE = '''/-- `count_ones` of a `width`-bit value: the number of one bits among the low `width` bits -/
+def popcount : Nat → Nat → Nat
+  | 0, _ => 0
+  | width + 1, w => w % 2 + popcount width (w / 2)
+
+def ctzGo : Nat → Nat → Nat
+  | 0, _ => 0
+  | fuel + 1, w => if w % 2 = 1 then 0 else 1 + ctzGo fuel (w / 2)
+
+/-- `trailing_zeros` of a `width`-bit value (`width` for 0) -/
+def ctz (width w : Nat) : Nat := if w = 0 then width else ctzGo width w
+
+/-- `leading_zeros` of a `width`-bit value (`width` for 0) -/
+def clz (width w : Nat) : Nat := if w = 0 then width else width - 1 - Nat.log2 w
+'''
+
+
+def translate(target, fns, emitted_enums):
+    lean, rust, rel = target[:3]
+    spec = dict(target[3]) if len(target) > 3 else {}
+    impl = spec.get("impl")
+    src, line = find_fn(rel, rust, impl)
+    what = f"function {impl + '::' if impl else ''}{rust} ({rel}:{line})"
+    for pat in spec.get("uses", []):
+        if not re.search(pat, GC.read(rel)):
+            raise TrError(f"{what}: the import `{pat}` this translation relies on is gone from {rel}")
+    types = TypeCtx([rel] + spec.get("types_from", []), what, spec.get("opaque", ()))
+    name, params, ret, body, selfmode = Parser(lex(src, what), what, impl).function()
+    if selfmode and not impl:
+        raise TrError(f"{what}: a method needs `impl` in its target")
+    tr = Tr(what, fns, lambda c, rel=rel: const_value(c, rel, spec.get("const_from", ())), types, spec)
+    tr.lean = lean
+    if "hints" in spec:
+        spec["hints"] = {k: v for k, v in spec["hints"].items()}
+    if selfmode:
+        tr.objs["self"] = impl
+    prim_params = []
+    for p, t in params:
+        if not isinstance(t, str) and t[0] == "named" and t[1] in types.structs:
+            tr.objs[p] = t[1]
+        else:
+            prim_params.append((p, types.value_ty(t)))
+    tr.ret = types.value_ty(ret)
+    # which loops does the body have? (`loop` / `while` need fuel)
+    has = {"loop": False}
+
+    def look(n):
+        if n and n[0] == "loop":
+            has["loop"] = True
+        return True
+    walk(body, look)
+    tr.fuel = has["loop"]
+    leafs = tr.used_leafs(body) if tr.objs else []
+    env, sig, taken = {}, [], set()
+    for key in leafs:
+        ty = tr.leaf_ty(key)
+        base = Tr.leaf_name(key, taken)
+        if isinstance(ty, tuple) and ty[0] == "arr":
+            if not is_int(ty[1]):
+                raise TrError(f"{what}: array `{key}` of {ty[1]} is outside the translated subset")
+            names = [f"{base}{j}" for j in range(ty[2])]
+            for nm in names:
+                taken.add(nm)
+                sig.append(f"({nm} : Nat)")
+            env[key] = (names, ty)
+        else:
+            taken.add(base)
+            sig.append(f"({base} : {lean_ty(ty)})")
+            env[key] = (base, ty)
+    for p, t in prim_params:
+        nm = lname(p)
+        if nm in taken:          # an explicit parameter named like a field of `self`
+            nm = p + "_arg"
+        if nm in taken:
+            raise TrError(f"{what}: parameter `{p}` collides with a field name")
+        taken.add(nm)
+        sig.append(f"({nm} : {lean_ty(t)})")
+        env[p] = (nm, t)
+    # leaf fields the body assigns
+    assigned = []
+
+    def look2(n):
+        if n and n[0] == "assign_place":
+            place = n[1][1] if n[1][0] == "index" else n[1]
+            p = tr.path_of(place)
+            if p is None:
+                raise TrError(f"{what}: assignment to a place that is not a field of an object")
+            r = tr.obj_resolve(p)
+            key = r[1] if r[0] == "leaf" else r[2] + ".0"
+            if key not in assigned:
+                assigned.append(key)
+        return True
+    walk(body, look2)
+    for k in assigned:
+        if selfmode != "mut" or not k.startswith("self."):
+            raise TrError(f"{what}: assignment to `{k}` without `&mut self`")
+    tr.mutleafs = [k for k in leafs if k in assigned]
+    term = tr.stmts(body, env, tr.ret)
+    flat = " ".join(src.split())
+    rty = tr.ret_lean_ty()
+    out = ""
+    for en in tr.enums_used:
+        if en not in emitted_enums:
+            emitted_enums.append(en)
+            erel, variants = types.enums[en]
+            out += f"/-- `enum {en}` of `{erel}` (same variant names, integer payloads) -/\ninductive {en} where\n"
+            for vn, vts in variants:
+                out += f"  | {vn}" + "".join(f" (a{i} : Nat)" for i in range(len(vts))) + "\n"
+            out += "deriving DecidableEq, Repr\n\n"
+    out += "\n".join(tr.aux) + ("\n" if tr.aux else "")
+    fuelp = "(fuel : Nat) " if tr.fuel else ""
+    extra = ""
+    if tr.mutleafs:
+        extra = "  Result: " + ("the returned value, then " if tr.ret != "unit" else "") + "the new values of " + ", ".join(f"`{k}`" for k in tr.mutleafs) + "."
+    if tr.fuel:
+        extra += "  Outer `none` = the fuel ran out, `some none` = panic."
+    out += (f"/-- `{rel}:{line}`  `{flat[:160]}{'…' if len(flat) > 160 else ''}`{extra} -/\n"
+            f"def {lean} {fuelp}{' '.join(sig)} : {rty} :=\n{indent(term)}\n")
+    entry = {"lean": lean, "params": prim_params, "ret": tr.ret, "fuel": tr.fuel, "mutleafs": tr.mutleafs,
+             "objparams": [p for p in tr.objs if p != "self"]}
+    if selfmode or impl:
+        entry["selfleafs"] = [(k[len("self."):], env[k][1]) for k in leafs if k.startswith("self.")]
+        if entry["objparams"]:
+            entry["fuel"] = entry["fuel"]       # callable only if it has no other object parameter (checked at the call)
+        fns[f"{impl}::{rust}"] = entry
+    else:
+        # NOTE: callers resolve free functions by RUST name inside the same run; a second function of the same name (leaf / branch
+        # `body_size`) is reachable only through an explicit `calls` entry of the caller
+        if rust not in fns:
+            fns[rust] = entry
+        else:
+            fns[rust] = dict(entry, ambiguous=True)
+    fns["=" + lean] = entry
+    return out, f"{lean} <- {rel}:{line}"
 
 
 def generate():
-    fns, out, report = {}, [], []
-    for lean, rust, rel in TARGETS:
-        src, line = find_fn(rel, rust)
-        what = f"function {rust} ({rel}:{line})"
-        name, params, ret, body = Parser(lex(src, what), what).function()
-        tr = Tr(what, fns, lambda c, rel=rel: const_value(c, rel))
-        env = {p: (lname(p), t) for p, t in params}
-        term = tr.stmts(body, env, ret)
-        sig = " ".join(f"({lname(p)} : {'Bool' if t == 'bool' else 'Nat'})" for p, t in params)
-        rty = "Bool" if ret == "bool" else "Nat"
-        flat = " ".join(src.split())
-        out.append(f"/-- `{rel}:{line}`  `{flat[:160]}{'…' if len(flat) > 160 else ''}` -/\ndef {lean} {sig} : Option {rty} :=\n{indent(term)}\n")
-        # NOTE: callers resolve by RUST name inside the same run; two rust functions called `body_size` are never called by a target
-        fns[rust] = (lean, params, ret)
-        report.append(f"{lean} <- {rel}:{line}")
+    fns, out, report, enums = {}, [], [], []
+    for target in TARGETS:
+        text, rep = translate(target, fns, enums)
+        out.append(text)
+        report.append(rep)
     header = ("/-!\nGENERATED by tools/gen_functions.py from the Rust sources — do not edit.\n"
               "One definition per translated function; `none` = the Rust function panics (checked arithmetic, division by zero,\n"
-              "over-long shift, failed assert).  `Store/GenFnCheck.lean` proves each equal to the hand-written mirror.\n-/\n"
-              "namespace Nomt.GenFn\n\n")
+              "over-long shift, failed assert, index out of bounds, `unwrap` of `None`).  Fields of `self` are parameters; a `&mut self`\n"
+              "method returns the new values of the fields it assigns.  `Store/GenFnCheck*.lean` proves each equal to the hand-written mirror.\n-/\n"
+              "namespace Nomt.GenFn\n\n" + PRELUDE + "\n")
     return header + "\n".join(out) + "\nend Nomt.GenFn\n", report
 
 
